@@ -30,6 +30,7 @@ from hpstatic.terms import (sym, intern, show, subterms, calls_in, NONE, num, kw
 from hpstatic.xrnorm import atom_rewrite
 from . import c01
 from .c05 import subst
+from .common import as_difference, path_has, norm_cond
 
 MUTATION_TARGETS = {'holopy/scattering/interface.py': ['determine_default_theory_for', '_choose_mie_vs_multisphere', 'interpret_theory'], 'holopy/scattering/theory/multisphere.py': ['_calc_cscat']}
 
@@ -181,9 +182,21 @@ def cluster(check, prog):
                 C = cen[0]
                 comp = C[2][0]
                 okq = comp[3][0][1] == sp and comp[2] == ('attr', comp[3][0][0], 'center')
-                want = expr_term(prog, 'np.linalg.norm(C.reshape(1, -1, 3) - '
-                                 'C.reshape(-1, 1, 3), axis=2).max()', {'C': C})
-                okq = okq and lhs == want
+                # max over axis-2 norms of (row-broadcast C) - (column-broadcast C);
+                # the two operands may come in either order (|a-b| = |b-a|) and the
+                # difference may be spelled a + (-b)
+                ra = expr_term(prog, 'C.reshape(1, -1, 3)', {'C': C})
+                rb = expr_term(prog, 'C.reshape(-1, 1, 3)', {'C': C})
+                nm = [x for x in subterms(lhs) if x[0] == 'call' and
+                      x[1] == 'numpy.linalg.norm']
+                okq = okq and len(nm) == 1 and kw(nm[0], 'axis') == num(2) and \
+                    len(nm[0][2]) == 1
+                if okq:
+                    df = as_difference(nm[0][2][0])
+                    okq = df is not None and {df[0], df[1]} == {ra, rb}
+                    okq = okq and lhs in (
+                        expr_term(prog, 'N.max()', {'N': nm[0]}),
+                        expr_term(prog, 'np.max(N)', {'N': nm[0]}))
             check.require(okq, 'Q2-all-pairs-separation', 'max_separation',
                           'maximum over all pairs of member-centre distances', loc,
                           fail_detail='separation measure is %s: not the maximum '
